@@ -162,7 +162,7 @@ type vf34Chain struct {
 	gasBalance int64
 
 	scriptVerdict map[string]vf34Verdict // IsValidScript by script
-	n3Verdict     map[string]bool         // InvokeContainedScript by script
+	n3Verdict     map[string]bool        // InvokeContainedScript by script
 	rawNotary     map[util.Uint256]*transaction.Transaction
 
 	netContracts struct{ netmap, container, balance, reputation, neofs util.Uint160 }
@@ -376,11 +376,11 @@ type vf34ReqOpts struct {
 	EmptyInvoker bool
 
 	// additions of the C34 monitor
-	AttrMode       int  // 0 one NotaryAssisted; 1 NotaryAssisted + HighPriority; 2 a single attribute of another type
-	AlphaSigner    bool // signer #1 is a foreign account (witness #1 still carries the alphabet script)
-	AlphaWitness   bool // witness #1 carries a foreign verification script (signer #1 still the alphabet account)
-	ExtraSigner    bool // one more signer than witnesses
-	FBNoNVB        bool // fallback with three attributes none of which is NotValidBefore
+	AttrMode     int  // 0 one NotaryAssisted; 1 NotaryAssisted + HighPriority; 2 a single attribute of another type
+	AlphaSigner  bool // signer #1 is a foreign account (witness #1 still carries the alphabet script)
+	AlphaWitness bool // witness #1 carries a foreign verification script (signer #1 still the alphabet account)
+	ExtraSigner  bool // one more signer than witnesses
+	FBNoNVB      bool // fallback with three attributes none of which is NotValidBefore
 
 	// witness forms: every witness is (invocation script, verification script); the
 	// variations are drawn from the product of the forms of both fields, not from one
